@@ -26,7 +26,8 @@ def mc(rep, tier):
 
 
 def gen(rep, tier, clauses, hashseeds=(0,)):
-    scopes = [(3, 1), (2, 2)] if tier == "quick" else [(4, 1), (3, 2)]
+    # keys=0: over=[] - no partition column, the whole table is one group
+    scopes = [(3, 1), (2, 2), (3, 0)] if tier == "quick" else [(4, 1), (3, 2), (4, 0)]
     return suite_rel.gen(rep, "group", "Gen_Group", [(f"rows<={r} keys={k}", _cfg(r, k)) for r, k in scopes],
                          "replay_group", clauses, hashseeds=hashseeds)
 
